@@ -5,7 +5,7 @@ real threads calling `daemon._getInstance(cls, conn)` under the cooperative sche
 shared access per step: lock acquire/release, table get/set, creator invocation).
 The same case is evaluated by Model/Instances.v inside Coq (Harness/H09.v) with the shape the
 extractor read off the tree under test; the oracle states the property directly in Python."""
-import gc, types, weakref
+import gc, sys, types, weakref
 from tools.lib import vlib, coop, loopback
 from tools.lib.vlib import cnat, cbool, clist
 
@@ -182,6 +182,66 @@ class InstrDict(dict):
     def __delitem__(self, k):
         self._y("del")
         dict.__delitem__(self, k)
+
+
+def instrument_daemon(daemon, ctl):
+    """every dict- or lock-valued attribute of the daemon instance gets an instrumented twin, whatever its name:
+    state that an edit adds to the daemon is a yield point too"""
+    import threading
+    lock_t, rlock_t = type(threading.Lock()), type(threading.RLock())
+    for name, val in list(vars(daemon).items()):
+        if type(val) is dict:
+            twin = InstrDict(val)
+            twin.ctl = ctl
+            for k, v in list(val.items()):       # locks kept inside a table (e.g. one per class) become cooperative too
+                if isinstance(v, lock_t):
+                    dict.__setitem__(twin, k, coop.CoopLock(ctl))
+                elif isinstance(v, rlock_t):
+                    dict.__setitem__(twin, k, coop.CoopRLock(ctl))
+            setattr(daemon, name, twin)
+        elif isinstance(val, lock_t):
+            setattr(daemon, name, coop.CoopLock(ctl))
+        elif isinstance(val, rlock_t):
+            setattr(daemon, name, coop.CoopRLock(ctl))
+
+
+def coop_threading(ctl):
+    """locks that Pyro5.server creates while the controlled threads run are cooperative locks; returns the undo function"""
+    import threading
+    import Pyro5.server as srv
+    real = srv.threading
+    shim = types.SimpleNamespace(**{k: getattr(threading, k) for k in dir(threading) if not k.startswith("__")})
+    shim.Lock = lambda: coop.CoopLock(ctl)
+    shim.RLock = lambda: coop.CoopRLock(ctl)
+    srv.threading = shim
+
+    def undo():
+        srv.threading = real
+    return undo
+
+
+def code_objects(code):
+    out = {code}
+    for c in code.co_consts:
+        if isinstance(c, types.CodeType):
+            out |= code_objects(c)
+    return out
+
+
+def make_line_tracer(daemon, ctl):
+    """line-level yield points inside Daemon._getInstance (and its nested helpers): one scheduler step per source line"""
+    codes = code_objects(type(daemon)._getInstance.__code__)
+
+    def local(frame, event, arg):
+        if event == "line":
+            ctl.yield_point("line", frame.f_lineno)
+        return local
+
+    def tracer(frame, event, arg):
+        if event == "call" and frame.f_code in codes:
+            return local
+        return None
+    return tracer
 
 
 _GEN_INFO = {}
@@ -514,6 +574,7 @@ def run_impl(case, tree="/repo"):
     orig = su.create_socket
     ctxs = {}
     snaps = {}
+    restore = []
 
     def ctx_of(d):
         if d not in ctxs:
@@ -584,30 +645,34 @@ def run_impl(case, tree="/repo"):
         world.cur = cd
         daemon = cx.daemon
         if case["calls"] and not cx.closed:
-            info = gen_info(tree)
             ctl = coop.Controller()
-            tbl = InstrDict(daemon._pyroInstances)
-            tbl.ctl = ctl
-            daemon._pyroInstances = tbl
-            la = info.get("lock_attr")
-            if la and hasattr(daemon, la):
-                setattr(daemon, la, coop.CoopRLock(ctl) if info.get("lock_kind") == "RLock" else coop.CoopLock(ctl))
+            instrument_daemon(daemon, ctl)
+            restore.append(coop_threading(ctl))
             world.ctl = ctl
+            line_tracer = make_line_tracer(daemon, ctl) if case.get("conc") == "line" else None
 
             def mk(i, cl):
                 conn = types.SimpleNamespace(pyroInstances={})
 
                 def body():
-                    for c in cl:
-                        r = call_result(lambda: (lambda a: [getattr(a, "_daemon", cd), serial_of(a)])(daemon._getInstance(world.classes[c], conn)))
-                        if r[0] == "served":
-                            r = cx.served(r, c)
-                        results[i].append([c, r])
+                    if line_tracer is not None:
+                        sys.settrace(line_tracer)
+                    try:
+                        for c in cl:
+                            r = call_result(lambda: (lambda a: [getattr(a, "_daemon", cd), serial_of(a)])(daemon._getInstance(world.classes[c], conn)))
+                            if r[0] == "served":
+                                r = cx.served(r, c)
+                            results[i].append([c, r])
+                    finally:
+                        sys.settrace(None)
                 return body
             for i, cl in enumerate(case["calls"]):
                 ctl.spawn(mk(i, cl))
-            ctl.start()
-            ctl.run(case["sched"])
+            try:
+                ctl.start()
+                ctl.run(case["sched"])
+            except coop.HarnessStuck as x:
+                cx.obs["errors"].append("stuck: %s" % x)
 
         def conc_snapshot():
             return {"results": [list(map(list, r)) for r in results], "done": [w.done for w in ctl.workers] if ctl else []}
@@ -637,6 +702,8 @@ def run_impl(case, tree="/repo"):
         return {"d": out, "cd": cd}
     finally:
         su.create_socket = orig
+        for undo in restore:
+            undo()
         for cx in ctxs.values():
             try:
                 cx.finish()
@@ -924,6 +991,34 @@ def gen_case(rng, conc=None):
     return case
 
 
+def line_family():
+    """concurrent first calls with one scheduler step per source line of _getInstance: every placement of two
+    preemption points for two threads, a few three-thread interleavings"""
+    out = []
+    T, F = True, False
+    for spec, dflt, script in ((cls("single", "plain", F, "none"), ["made", T, F], []),
+                               (cls("single", "len", T, "opt"), ["made", F, T, T], [["fail", "TypeError"]])):
+        step = 1 if not script else 2
+        for i in range(0, 16, step):
+            for j in range(0, 22, step):
+                out.append({"classes": [spec], "script": script, "dflt": dflt, "hist": [], "calls": [[0], [0]],
+                            "sched": [0] * i + [1] * j + drain(2, 40), "conc": "line"})
+    for i in range(0, 14, 2):
+        for j in range(0, 14, 3):
+            out.append({"classes": [cls("single", "plain", F, "func"), cls("single", "bool", F, "none")], "script": [], "dflt": ["made", T, F],
+                        "hist": [["call", 0, 1]], "calls": [[0, 1], [0], [1, 0]],
+                        "sched": [0] * i + [1] * j + [2, 1, 2, 0, 2, 1, 2, 2, 0] + drain(3, 60), "conc": "line"})
+    return out
+
+
+def gen_line_case(rng):
+    case = gen_case(rng, conc=True)
+    nt = len(case["calls"])
+    case["sched"] = [rng.randrange(nt) for _ in range(rng.randint(0, 40))] + drain(nt, 60)
+    case["conc"] = "line"
+    return case
+
+
 REAL_ENDINGS = ("orderly", "reset", "error")
 
 
@@ -1070,6 +1165,9 @@ def _execute(ctx, cases, model_ok, res):
                 res.count("obs:" + o[0] + (":wrongtype" if o[0] == "failed" and o[1] else ""))
         for sig, what in oracle(case, obs):
             res.violations.append({"signature": sig, "what": what, "case": case})
+        if case.get("conc") == "line":
+            res.count("line_level_schedules")       # one step per source line of _getInstance: judged by the oracle only,
+            continue                                # the model's atomic steps are the lock-protected primitives
         lits.append(c_case(case, obs))
         kept.append((case, obs))
     if model_ok:
@@ -1081,7 +1179,9 @@ def _execute(ctx, cases, model_ok, res):
 
 def all_cases(ctx):
     rng = ctx.rng
-    cases = vlib.load_corpus(PROP) + family_cases() + real_family()
+    cases = vlib.load_corpus(PROP) + family_cases() + real_family() + line_family()
+    for _ in range(min(ctx.n(100, 1500), 3000)):
+        cases.append(gen_line_case(rng))
     for _ in range(min(ctx.n(28, 300), 600)):
         cases.append(gen_real_case(rng))
     for _ in range(min(ctx.n(900, 6000), 12000)):      # search (scale 10) is capped: ~30 ms per case
